@@ -11,8 +11,8 @@
     iso.render <df> <tf> <of> <sep> [year,a,b,hh,mm,ss,neg,oh,om] [frac digits]
         -> ok <hex> <lax-wf> <strict-wf> <denotation>
 
-    isogen.parse <sep|-> <hex> [b]   the TRANSLATED isoparse (Generated/IsoKernels.lean) behind the hand-modelled
-                                     constructor check and ASCII gate
+    isogen.parse <sep|-> <hex> [b|s|sb]   the TRANSLATED isoparse behind the TRANSLATED _takes_ascii (input kind: str,
+                                     bytes, text stream, byte stream) and the hand-modelled constructor check
     isogen.tz <0|1> <hex>            translated _parse_tzstr
     isogen.digits <width> <hex>      translated _parse_digits
     isogen.idate <hex>               translated _parse_isodate  -> ok y m d pos
@@ -73,16 +73,26 @@ def showComp : BytesPy.Comp → String
 
 def showComps (l : List BytesPy.Comp) : String := " ".intercalate (l.map showComp)
 
-/-- the translated `isoparse` behind the hand-modelled `__init__` and `_takes_ascii` -/
-def genIsoparseFull (sep : Option (List Nat)) (isStr : Bool) (s : List Nat) : Py.R IsoT.Value := do
+/-- input kind token: (none) str | b bytes | s text stream | sb byte stream -/
+def pyVal? (rest : List String) (s : List Nat) : Option BytesPy.PyVal :=
+  match rest with
+  | [] => some (.str s)
+  | ["b"] => some (.bytes s)
+  | ["s"] => some (.streamStr s)
+  | ["sb"] => some (.streamBytes s)
+  | _ => none
+
+/-- the translated `isoparse` behind the translated `_takes_ascii` and the hand-modelled `__init__`
+    (text is given as its UTF-8 bytes: a non-ASCII character shows as bytes ≥ 128, which is all the gate looks at) -/
+def genIsoparseFull (sep : Option (List Nat)) (v : BytesPy.PyVal) : Py.R IsoT.Value := do
   let sp ← Iso.mkSep sep
-  Iso.asciiGate isStr s (Gen.isoparse (sp.map fun c => [c]))
+  Gen.takesAscii (Gen.isoparse (sp.map fun c => [c])) v
 
 def handle (op : String) (args : List String) : Option String :=
   match op, args with
   | "isogen.parse", sep :: hex :: rest => do
-      let sp ← sep? sep; let s ← bytes? hex; let isStr ← isStr? rest
-      some (Py.showR IsoT.Value.wire (genIsoparseFull sp isStr s))
+      let sp ← sep? sep; let s ← bytes? hex; let v ← pyVal? rest s
+      some (Py.showR IsoT.Value.wire (genIsoparseFull sp v))
   | "isogen.tz", [z, hex] => do
       let s ← bytes? hex
       some (Py.showR showOff (Gen.parseTzstr s (z != "0")))
